@@ -16,7 +16,7 @@ import (
 func init() {
 	core.Register(&core.Property{
 		ID:   "C09",
-		Rule: "Date/DateTime/Time literals over every precision x offsets {none,Z,+05:30,-11:00} x days (quick: month ends, leap day, year 0001/9999 edges; thorough: every day of 2019-03-01..2023-02-28) x every calendar keyword (singular, plural) and UCUM-style unit x amounts {0,1,11,12,13,23,24,25,59,60,61,365,366,1000,1.5,0.5} x {+,-}; result compared with an independent proleptic-Gregorian model (type, precision, offset, value); monotonicity in the amount; (x+q)-q = x where the model says no clamping/truncation; non-temporal units must error; Quantity +,-,<,= only within one unit. distinct_nontrivial = distinct (type, precision, offset class, unit family, amount, sign) cases whose expected result differs from x",
+		Rule: "Date/DateTime/Time literals over every precision x offsets {none,Z,+05:30,-11:00} x days (quick: month ends, leap day, year 0001/9999 edges; thorough: every day of 2019-03-01..2023-02-28) x every calendar keyword (singular, plural) and UCUM-style unit x amounts {0,1,11,12,13,23,24,25,29,30,31,52,53,59,60,61,104,360,364,365,366,729,730,1000,8640,8759,8760,1.5,0.5} x {+,-}; result compared with an independent proleptic-Gregorian model (type, precision, offset, value), and must equal the literal of its own rendering under `=`; monotonicity in the amount; (x+q)-q = x where the model says no clamping/truncation; non-temporal units must error; Quantity +,-,<,= only within one unit. distinct_nontrivial = distinct (type, precision, offset class, unit family, amount, sign) cases whose expected result differs from x",
 		Assumptions: []string{"a sub-day unit added to a Date may be converted or rejected; definite UCUM codes may be rejected or treated like their keyword; results outside 0001..9999 may be error or empty",
 			"fractional amounts: whole part used, except fractional seconds on second/millisecond precision (either reading accepted)"},
 		Run:    runC09,
@@ -150,6 +150,16 @@ func c09Arith(env *core.Env, kind, xText, amount, unit string, sign int) (model.
 		env.Violatef("C09/"+cls+"/wrong-value/"+pred, "`%s`: calendar model gives %s, observed %s", src, res.Value, it.T)
 		return got, true
 	}
+	// the result is that value also for the operators: it equals the literal of its own rendering
+	lit := "@" + it.T
+	if kind == "Time" {
+		lit = "@T" + it.T
+	}
+	if eq := fx.E(env, "("+src+") = "+lit); eq.Bool3() != "true" && !eq.IsPanic() {
+		env.Violatef("C09/"+cls+"/result-not-equal-to-its-rendering", "`%s` renders as %s, but `(%s) = %s` is %s", src, it.T, src, lit, trunc(eq.Short(), 80))
+		return got, true
+	}
+	env.Cover("result-equals-rendering")
 	if res.Clamped {
 		env.Cover("clamp")
 	}
@@ -197,7 +207,9 @@ func replayC09(env *core.Env, a []json.RawMessage) {
 
 var c09Units = []string{"year", "years", "month", "months", "week", "weeks", "day", "days", "hour", "hours", "minute", "minutes", "second", "seconds", "millisecond", "milliseconds",
 	"'a'", "'mo'", "'wk'", "'d'", "'h'", "'min'", "'s'", "'ms'", "'mg'", "'1'", "'kg'"}
-var c09Amounts = []string{"0", "1", "11", "12", "13", "23", "24", "25", "59", "60", "61", "365", "366", "1000", "1.5", "0.5"}
+var c09Amounts = []string{"0", "1", "11", "12", "13", "23", "24", "25", "59", "60", "61", "365", "366", "1000", "1.5", "0.5",
+	// just below and at the multiples of the 30-day month and the 365-day year in days, weeks and hours
+	"29", "30", "31", "52", "53", "104", "360", "364", "729", "730", "8640", "8759", "8760"}
 
 func c09Values(env *core.Env) [][2]string {
 	var out [][2]string
